@@ -140,8 +140,13 @@ class Prop(object):
         if case['expired']:
             prefs['key_expiration'] = timedelta(days=1)
         key, raw = K.pgpy_cert(case['key'], subkeys=[('ed25519b', {KeyFlags.Sign})] if case['key'] == 'rsa2048a' else (), **prefs)
+        # a direct-key self-signature, so that verify(key) also examines a signature whose subject is the key itself
+        direct = key.certify(key, created=K.dt(K.T0 + 40), hash=HashAlgorithm.SHA256)
+        key |= direct
+        revsig = None
         if case['revoked']:
-            key |= key.revoke(key, created=K.dt(K.T0 + 50), hash=HashAlgorithm.SHA256)
+            revsig = key.revoke(key, created=K.dt(K.T0 + 50), hash=HashAlgorithm.SHA256)
+            key |= revsig
         doc = 'the quick brown fox\n'
         sigs = [key.sign(doc, hash=halg, created=K.dt(K.T0 + 100 + i)) for i in range(3)]
         pub = key.pubkey
@@ -161,7 +166,13 @@ class Prop(object):
                 sv, truth, oc = None, False, 'PGPError'
             r.outcomes[oc] += 1
             tags = None
-            if sv is not None:
+            # entries verified by the expired primary itself (a signing subkey verifies its own signatures and has no expiry of its own here)
+            mine = [g for g in good if g.signature.signer == key.fingerprint.keyid] if sv is not None else []
+            if sv is not None and must_be_falsy and mine and case['expired'] and 'wrong' not in label:
+                tags = {'kind': 'disqualified-but-listed-good', 'expired': True}
+                why = '%d of %d examined signatures are listed as good although the verifying key is expired (types %s)' % (
+                    len(mine), len(sv), sorted(set(hex(g.signature.type) for g in mine)))
+            if tags is None and sv is not None:
                 if len(good) + len(bad) != len(sv) or (nsigs is not None and len(sv) != nsigs):
                     tags, why = {'kind': 'incoherent-result'}, 'examined %s signatures, listed good=%d bad=%d len=%d' % (nsigs, len(good), len(bad), len(sv))
                 elif truth != (len(bad) == 0):
@@ -193,6 +204,11 @@ class Prop(object):
             verdict('message-%d-sigs-wrong' % n, lambda: pub.verify(bad), True, False, n)
         # self subject: all self-signatures of the key verified in one call
         verdict('self/key', lambda: pub.verify(pub), exp, False, None)
+        verdict('self/direct-key-signature', lambda: pub.verify(pub, direct), exp, (not exp) and strong, 1)
+        if revsig is not None:
+            verdict('self/key-revocation-signature', lambda: pub.verify(pub, revsig), exp, (not exp) and strong, 1)
+        for sk in pub.subkeys.values():
+            verdict('self/subkey', lambda: pub.verify(sk), exp, False, None)
         uid = pub.userids[0]
         verdict('self/uid', lambda: pub.verify(uid), exp, False, None)
         other = pgpy.PGPUID.new('Mallory <m@example.org>')
